@@ -13,6 +13,7 @@ type Scenario struct {
 	Kind     string // what the scenario exercises (also the prefix of oracle keys)
 	Prog     *Prog
 	NoOracle bool // behaviour outside the property's reading: compared with the model only
+	Probe    bool // accept/reject probe: case line `minic`, oracle keys prefixed with Note
 	Note     string
 }
 
